@@ -88,6 +88,13 @@ pub fn predicate(id: &str, v: &Violation) -> bool {
                     _ => false,
                 }
         }
+        // make_est_times' own structural self-check fails (join of two alternative branches on a route shorter
+        // than its 5-mile look-ahead): the process panics instead of returning a graph or an error
+        "C15-structural-assert-in-make-est-times" => {
+            v.monitor == "panic"
+                && sig_s(v, "location").map(|l| l.starts_with("src/meet_pass/est_times/mod.rs")).unwrap_or(false)
+                && sig_s(v, "message").map(|m| m.contains("est_time_prev.idx_next == est_idx")).unwrap_or(false)
+        }
         _ => {
             let _ = (sig_bool(v, ""),);
             false
